@@ -71,6 +71,9 @@ def c18(tier):
     # readsplinefitstable constructs the table from the path: a constructor that throws runs no destructor, so the read itself has to
     # release what it had built (the window rule on the read path)
     ts.ts2(P, C, only=("read_fits", "read_fits_mem", "read_fits_core", "splinetable(std::string,photospline::splinetable)"), rule_floor=4)
+    # a C caller hands splinetable_convolve whatever pointer it has — splinetable_knots(t, dim) + k included: the member it forwards to
+    # reads the kernel only while the table's own knot arrays are still alive
+    uw.uw8(P, C)
     C.extra["units"] = sorted(P.units.keys())
     C.extra["functions_analysed"] = len(P.functions)
     return C.finish()
@@ -361,6 +364,7 @@ def c05(tier):
     kb.as2(P, C)
     dp.cl10(P, C)
     kb.sc4(P, C)
+    kb.sc5(P, C)
     # which core reads centers[D]/order[D]/strides[D] is decided by the dispatch table
     dp.dp(P, C)
     dp.dp(P, C, variant="driver-noevaltmpl")
@@ -390,6 +394,8 @@ def c04(tier):
     kb.sc123(P, C)
     # lookup touches the coordinates through comparisons only: no arithmetic on them can produce an index (inf - inf, NaN -> int)
     kb.sc4(P, C)
+    # the centres are an output of the lookup: what the caller's array held before has no influence
+    kb.sc5(P, C)
     # the call operator looks the centres up into a scratch array of its own: it must hold one centre per dimension
     kb.kb8(P, C)
     # lookup takes its acceptance limit and bisection bound from nknots[i] and knots[i]: the one operation of the library that moves these
